@@ -39,6 +39,7 @@ type Profile struct {
 	EnforceP        float64
 	AnyBytesTime    bool // any / []byte / time.Time in fields and results
 	NestedSlices    bool
+	MutualRecursion bool
 }
 
 var verbs = []string{"GET", "POST", "PUT", "DELETE", "PATCH"}
@@ -51,10 +52,11 @@ var allPrims = append(append([]string{"string", "bool", "float32", "float64"}, i
 var descrPool = []string{"Returns the thing", "Creates a new entry", "The identifier", "Übergröße: ünïcödé text", "説明 in Japanese", "With (parentheses) and {braces}", "Multi word description, with commas", "Ends with colon:"}
 
 type gen struct {
-	r    *rand.Rand
-	prof Profile
-	p    *Project
-	used map[string]bool
+	curPkg string // package of the controller being generated
+	r      *rand.Rand
+	prof   Profile
+	p      *Project
+	used   map[string]bool
 }
 
 func (g *gen) chance(p float64) bool   { return g.r.Float64() < p }
@@ -100,6 +102,45 @@ func Gen(r *rand.Rand, prof Profile, name, modRoot string) *Project {
 	g.genTypes()
 	g.genControllers()
 	return p
+}
+
+var pkgRank = map[string]int{"shared": 0, "models": 1, "ctl2": 2, "ctl": 3}
+
+// visible: package `from` may import package `of` (the generator keeps the package graph acyclic).
+func visible(from, of string) bool { return pkgRank[of] <= pkgRank[from] }
+
+func (g *gen) enumsFor(from string) []Enum {
+	var out []Enum
+	for _, e := range g.p.Enums {
+		if visible(from, e.Pkg) {
+			out = append(out, e)
+		}
+	}
+	return out
+}
+
+func (g *gen) aliasesFor(from string) []Alias {
+	var out []Alias
+	for _, a := range g.p.Aliases {
+		if visible(from, a.Pkg) {
+			out = append(out, a)
+		}
+	}
+	return out
+}
+
+// structsFor lists non-error structs visible from a package; limit>=0 restricts to indices < limit.
+func (g *gen) structsFor(from string, limit int) []Struct {
+	var out []Struct
+	for i, st := range g.p.Structs {
+		if limit >= 0 && i >= limit {
+			break
+		}
+		if visible(from, st.Pkg) && !st.IsError {
+			out = append(out, st)
+		}
+	}
+	return out
 }
 
 func (g *gen) typePkgs() []string {
@@ -277,9 +318,9 @@ func (g *gen) genTypes() {
 		nf := 1 + g.r.Intn(5)
 		usedF := map[string]bool{}
 		usedJ := map[string]bool{}
-		if prof.Models >= 2 && i > 0 && g.chance(0.25) {
+		if earlier := g.structsFor(s.Pkg, i); prof.Models >= 2 && len(earlier) > 0 && g.chance(0.25) {
 			// embedded earlier struct
-			e := p.Structs[g.r.Intn(i)]
+			e := earlier[g.r.Intn(len(earlier))]
 			s.Fields = append(s.Fields, Field{Embedded: true, Type: Named(e.Pkg, e.Name)})
 			usedF[e.Name] = true
 		}
@@ -324,25 +365,31 @@ func (g *gen) genTypes() {
 
 func (g *gen) fieldType(structIdx int) T {
 	prof, p := g.prof, g.p
+	from := p.Structs[structIdx].Pkg
+	enums, aliases := g.enumsFor(from), g.aliasesFor(from)
 	k := g.r.Intn(100)
 	switch {
 	case k < 40:
 		return Prim(g.pick(allPrims))
-	case k < 50 && len(p.Enums) > 0:
-		e := p.Enums[g.r.Intn(len(p.Enums))]
+	case k < 50 && len(enums) > 0:
+		e := enums[g.r.Intn(len(enums))]
 		return Named(e.Pkg, e.Name)
-	case k < 57 && len(p.Aliases) > 0:
-		a := p.Aliases[g.r.Intn(len(p.Aliases))]
+	case k < 57 && len(aliases) > 0:
+		a := aliases[g.r.Intn(len(aliases))]
 		return Named(a.Pkg, a.Name)
 	case k < 75:
 		// another struct: earlier index = acyclic; with Models>=2 also self/any (recursion via ptr/slice)
 		var t Struct
 		rec := false
-		if prof.Models >= 2 && g.chance(0.3) {
-			t = p.Structs[g.r.Intn(len(p.Structs))]
+		all, earlier := g.structsFor(from, -1), g.structsFor(from, structIdx)
+		if prof.Models >= 2 && g.chance(0.3) && len(all) > 0 && !prof.MutualRecursion {
+			t = p.Structs[structIdx] // self recursion (C07's quantifier); mutual recursion is C14's
 			rec = true
-		} else if structIdx > 0 {
-			t = p.Structs[g.r.Intn(structIdx)]
+		} else if prof.MutualRecursion && g.chance(0.4) && len(all) > 0 {
+			t = all[g.r.Intn(len(all))]
+			rec = true
+		} else if len(earlier) > 0 {
+			t = earlier[g.r.Intn(len(earlier))]
 		} else {
 			return Prim("string")
 		}
@@ -525,17 +572,18 @@ func hasBodyOrForm(ps []Param) bool {
 var paramNames = []string{"id", "name", "q", "limit", "offset", "sort", "filter", "token", "lang", "page", "ref", "mode", "flag", "ver"}
 
 func (g *gen) simpleParamType(in string) T {
-	prof, p := g.prof, g.p
+	prof := g.prof
+	enums, aliases := g.enumsFor(g.curPkg), g.aliasesFor(g.curPkg)
 	var t T
 	switch {
 	case prof.ParamTypeLevel == 0:
 		t = Prim("string")
-	case prof.ParamTypeLevel >= 2 && g.chance(0.3) && (len(p.Enums) > 0 || len(p.Aliases) > 0):
-		if len(p.Enums) > 0 && (len(p.Aliases) == 0 || g.chance(0.5)) {
-			e := p.Enums[g.r.Intn(len(p.Enums))]
+	case prof.ParamTypeLevel >= 2 && g.chance(0.3) && (len(enums) > 0 || len(aliases) > 0):
+		if len(enums) > 0 && (len(aliases) == 0 || g.chance(0.5)) {
+			e := enums[g.r.Intn(len(enums))]
 			t = Named(e.Pkg, e.Name)
 		} else {
-			a := p.Aliases[g.r.Intn(len(p.Aliases))]
+			a := aliases[g.r.Intn(len(aliases))]
 			t = Named(a.Pkg, a.Name)
 		}
 	default:
@@ -569,11 +617,11 @@ func (g *gen) paramValidator(t T) string {
 }
 
 func (g *gen) bodyType() (T, bool) {
-	p := g.p
-	if len(p.Structs) == 0 {
+	structs := g.structsFor(g.curPkg, -1)
+	if len(structs) == 0 {
 		return Slice(Prim("string")), true
 	}
-	s := p.Structs[g.r.Intn(len(p.Structs))]
+	s := structs[g.r.Intn(len(structs))]
 	n := Named(s.Pkg, s.Name)
 	switch g.r.Intn(5) {
 	case 0:
@@ -587,13 +635,14 @@ func (g *gen) bodyType() (T, bool) {
 }
 
 func (g *gen) retType() *T {
-	prof, p := g.prof, g.p
+	prof := g.prof
+	structs, enums, aliases := g.structsFor(g.curPkg, -1), g.enumsFor(g.curPkg), g.aliasesFor(g.curPkg)
 	k := g.r.Intn(100)
 	var t T
 	switch {
 	case k < 20:
 		return nil
-	case k < 45 || (len(p.Structs) == 0 && k < 80):
+	case k < 45 || (len(structs) == 0 && k < 80):
 		t = Prim(g.pick(allPrims))
 		if g.chance(0.2) {
 			t = Slice(t)
@@ -601,8 +650,8 @@ func (g *gen) retType() *T {
 		if g.chance(0.15) {
 			t = Ptr(Prim(g.pick(allPrims)))
 		}
-	case k < 80 && len(p.Structs) > 0:
-		s := p.Structs[g.r.Intn(len(p.Structs))]
+	case k < 80 && len(structs) > 0:
+		s := structs[g.r.Intn(len(structs))]
 		t = Named(s.Pkg, s.Name)
 		switch g.r.Intn(4) {
 		case 0:
@@ -610,14 +659,14 @@ func (g *gen) retType() *T {
 		case 1:
 			t = Slice(t)
 		}
-	case k < 88 && len(p.Enums) > 0:
-		e := p.Enums[g.r.Intn(len(p.Enums))]
+	case k < 88 && len(enums) > 0:
+		e := enums[g.r.Intn(len(enums))]
 		t = Named(e.Pkg, e.Name)
 		if g.chance(0.3) {
 			t = Slice(t)
 		}
-	case k < 93 && len(p.Aliases) > 0:
-		a := p.Aliases[g.r.Intn(len(p.Aliases))]
+	case k < 93 && len(aliases) > 0:
+		a := aliases[g.r.Intn(len(aliases))]
 		t = Named(a.Pkg, a.Name)
 	case k < 96 && prof.AnyBytesTime:
 		t = T{K: "any"}
@@ -633,6 +682,7 @@ func (g *gen) retType() *T {
 
 func (g *gen) genMethod(c *Controller, idx int) Method {
 	prof := g.prof
+	g.curPkg = c.Pkg
 	m := Method{Name: g.fresh(g.pick(methodVerbsWords) + g.pick(nouns))}
 	m.File = g.r.Intn(len(c.Files))
 	m.Verb = g.pick(verbs)
